@@ -56,7 +56,7 @@ def run(ctx):
         ctx.count('hosts', cfg['nhosts'])
         ctx.count('sessions', cfg['nsess'])
         for e in evs:
-            ctx.count('event', e[0] + ('-' + e[2] if len(e) > 2 else ''))
+            ctx.count('event', e[0] + ('-' + str(e[2]) if len(e) > 2 else ''))
         cases.append(c25.coq_case(cfg, evs, encs))
         meta.append((cfg, evs, encs))
 
